@@ -30,7 +30,7 @@ DST_CLASSES = ["self", "child", "descendant", "parent_side", "multicast", "defau
 RULE = ("sweep: 256 message types x message lengths {0,1,2,3,8,23,24} x destination class {self, child, deeper descendant, "
         "parent side, 0o100, 0o4444, invalid digit, 5 digits, 6 digits} x origin {valid, invalid} x role/level (10 UUTs: "
         "routing-only, network node at levels 0..4, unjoined mesh node, mesh master) - quick: a seeded 4 % sample, thorough: "
-        "complete; plus random byte strings of 1..32 bytes, sequences of 2-6 frames (fragment types included), and for the "
+        "complete; plus random byte strings of 1..32 bytes, sequences of 2-6 frames (fragment types included; complete fragment streams followed by repeats of their later fragments; an address response to relay with further frames waiting during the relay's 10 ms pause), and for the "
         "a third of the nodes re-addressed after construction, a third with multicast_relay on, a third next to a neighbour whose radio acknowledges while its application never runs (the master is then asked for an address through a node below that neighbour); for the master a run of MESH_ADDR_REQUESTs that exhausts one parent's children (the last ones refused) followed by unusable frames, and truncated/oversized MESH_ADDR_LOOKUP / MESH_ID_LOOKUP / MESH_ADDR_RELEASE / MESH_ADDR_REQUEST bodies with known "
         "and unknown ids; the validity predicate is evaluated for all 65 536 values (direct evaluation). Non-trivial: the frame "
         "reached the UUT's RX FIFO; distinct = distinct (role, frames, outcome)")
@@ -153,6 +153,30 @@ def make(i, base_seed, tier):
                 body = bytes([rng.choice([1, 3, 0o23 & 0xFF]), 0])
             frames.append({"hdr": [frm, 0, rng.getrandbits(16), typ, rng.choice(ids + [0])], "msg": body.hex(), "pipe": rng.randrange(6), "ack": rng.random() < 0.3})
     scn = {"seed": seed, "kind": "seq", "role": list(role), "frames": frames, "batch": rng.choice([1, 1, 2, 3])}
+    xq = stream(seed, "relay_gap")
+    if role[0] in ("net", "router") and role[1] and xq.random() < 0.25:
+        # a joined node relays an address response to the unassigned-node address twice, 10 ms apart; the next frame(s) - invalid ones
+        # among them - are already waiting in its radio during that pause
+        resp = {"hdr": [0, addr, xq.getrandbits(16), 128, xq.randint(1, 255)], "msg": bytes([xq.randint(1, 5) | 8 * (addr & 7), 0]).hex(), "pipe": 0 if False else xq.choice([1, 1, 0]), "ack": False}
+        follow = [_frame(xq, addr, xq.choice([0, 1, 65, 128, 148, 195, xq.getrandbits(8)]), xq.choice(LENS), xq.choice(DST_CLASSES), xq.random() < 0.5)
+                  for _ in range(xq.randint(1, 2))]
+        if xq.random() < 0.3:
+            follow.insert(0, {"raw": bytes(xq.getrandbits(8) for _ in range(xq.randint(1, 32))).hex(), "pipe": xq.randrange(6), "ack": False})
+        scn["frames"] = [resp] + follow
+        scn["batch"] = len(scn["frames"])
+    elif role[0] in ("net", "master", "mesh") and xq.random() < 0.15:
+        # a complete fragmented message for the node, then fragments of the same stream again (its sender did not hear the last
+        # acknowledgement and repeats) or strays with that id - in one update() or in separate ones
+        fid, frm, typ = xq.getrandbits(16), xq.choice([0o1, 0o3, 0o23, 0]) if addr not in (0o1, 0o3, 0o23) else 0o5, xq.choice([0, 1, 65, 127])
+        n = xq.randint(2, 4)
+        body = lambda: bytes(xq.getrandbits(8) for _ in range(24)).hex()
+        stream_ = [{"hdr": [frm, addr, fid, 148, n], "msg": body(), "pipe": xq.randrange(1, 6), "ack": False}]
+        for k_ in range(n - 2, 0, -1):
+            stream_.append({"hdr": [frm, addr, fid, 149, k_ + 1], "msg": body(), "pipe": xq.randrange(1, 6), "ack": False})
+        stream_.append({"hdr": [frm, addr, fid, 150, typ], "msg": body()[: 2 * xq.randint(1, 24)], "pipe": xq.randrange(1, 6), "ack": False})
+        tail = [dict(xq.choice(stream_[1:])) for _ in range(xq.randint(1, 3))]
+        scn["frames"] = stream_ + tail
+        scn["batch"] = xq.choice([1, 1, 3])
     return _extras(scn, seed, role)
 
 
@@ -291,6 +315,15 @@ def _run(scn, w, res):
             if k_ in byid and (t["data"][2] | (t["data"][3] << 8)) == (byid[k_][2] | (byid[k_][3] << 8)) and bytes(t["data"]) != bytes(byid[k_]):
                 res.add("dropped", {"kind": "forwarded_frame_altered", "role": cls},
                         "%s(%o) received %s and passed on %s" % (cls, addr, bytes(byid[k_]).hex(), bytes(t["data"]).hex()))
+                break
+        for t in sent:
+            # ... and a frame that had to be dropped (invalid origin / destination) is never the one that goes out, whatever else the
+            # node was doing when it arrived
+            k_ = (t["data"][0] | (t["data"][1] << 8), t["data"][4] | (t["data"][5] << 8), t["data"][6]) if len(t["data"]) >= 8 else None
+            if k_ in byid and bytes(t["data"]) == bytes(byid[k_]) and (not netref.valid_addr_doc(h_to(byid[k_])) or not netref.valid_addr_doc(h_from(byid[k_]))) \
+                    and sum(1 for (_, d) in pend if len(d) >= 8 and (d[0] | (d[1] << 8), d[4] | (d[5] << 8), d[6]) == k_) == 1:
+                res.add("dropped", {"kind": "invalid_frame_transmitted", "role": cls},
+                        "%s(%o) transmitted the frame %s, whose origin / destination address is invalid" % (cls, addr, bytes(t["data"]).hex()))
                 break
         for t in sent:
             if len(t["data"]) >= 8 and (t["data"][4] | (t["data"][5] << 8)) not in ids:
